@@ -396,7 +396,10 @@ func (w *World) callSSA(caller *frame, callpos token.Pos, fn *ssa.Function, args
 	if fn.Parent() == nil {
 		name := fnExternName(fn)
 		if ext := externals[name]; ext != nil {
-			return ext(fr, args)
+			r := ext(fr, args)
+			if _, real := r.(useRealCode); !real { // an external may decline (extern_html.go)
+				return r
+			}
 		}
 		if fn.Pkg == nil && fn.Origin() == nil && fn.Blocks == nil {
 			// synthetic wrapper without body
